@@ -179,7 +179,13 @@ def parse_field(owner: str, name: str, call: ast.Call, allow_meta: set):
 
 
 # ----------------------------------------------------------------------------------------
+FAST_METHODS: list = []
+FAST_CODECS: list = []
+STRUCT_CONSTS: dict = {}
+
+
 def parse_primitives(src: Path):
+    FAST_METHODS.clear()
     tree = ast.parse((src / 'aioslsk' / 'protocol' / 'primitives.py').read_text())
     prims: dict[str, list] = {}
     records: dict[str, list] = {}
@@ -193,7 +199,13 @@ def parse_primitives(src: Path):
             # logger / T / _ATTR_STRUCT: module constants that carry no layout of their own
             # (_ATTR_STRUCT belongs to the hand-optimised Attribute codec: correspondence)
             names = [t.id for t in n.targets if isinstance(t, ast.Name)]
-            if names and set(names) <= {'logger', 'T', '_ATTR_STRUCT'}:
+            if names == ['_ATTR_STRUCT']:
+                if not (isinstance(n.value, ast.Call) and ast.unparse(n.value.func) == 'struct.Struct' and len(n.value.args) == 1
+                        and isinstance(n.value.args[0], ast.Constant) and isinstance(n.value.args[0].value, str)):
+                    refuse(n, '_ATTR_STRUCT must be struct.Struct(<literal>)')
+                STRUCT_CONSTS['_ATTR_STRUCT'] = n.value.args[0].value
+                continue
+            if names and set(names) <= {'logger', 'T'}:
                 continue
             refuse(n, 'primitives.py: unexpected module-level assignment')
         if isinstance(n, ast.FunctionDef):
@@ -224,9 +236,12 @@ def parse_primitives(src: Path):
                 if isinstance(s, ast.Expr) and isinstance(s.value, ast.Constant):
                     continue
                 if isinstance(s, (ast.FunctionDef, ast.AsyncFunctionDef)):
-                    # hand-optimised codecs / helpers: not translated, covered by correspondence
+                    # hand-optimised codecs: translated into the field sequence they read / write
+                    # (translate_fast_codec, proved equal to the metadata-driven sequence in C01_fast_codecs)
                     if s.name not in ('deserialize', 'serialize', 'serialize_into', 'get_attribute_map'):
                         raise Refuse(f'record {n.name}: unknown method {s.name}')
+                    if s.name != 'get_attribute_map':
+                        FAST_METHODS.append((n.name, s))
                     continue
                 if (isinstance(s, ast.AnnAssign) and isinstance(s.target, ast.Name) and isinstance(s.value, ast.Call)
                         and isinstance(s.value.func, ast.Name) and s.value.func.id == 'field' and not s.value.args):
@@ -251,6 +266,9 @@ def parse_primitives(src: Path):
     rec_out = {}
     for rn, fs in records.items():
         rec_out[rn] = [[f['name'], type_ref(f, prims, records, rn)] for f in fs]
+    FAST_CODECS.clear()
+    for rn, fn in FAST_METHODS:
+        FAST_CODECS.append((rn, fn.name, translate_fast_codec(rn, fn, prims, rec_out)))
     return prims, rec_out
 
 
@@ -294,6 +312,161 @@ def type_ref(f: dict, prims: dict, records: dict, owner: str, extra: dict | None
     if f['subtype'] is not None:
         raise Refuse(f'{owner}.{f["name"]}: subtype on a non-array')
     return base(f['type'])
+
+
+# ----------------------------------------------------------------------------------------
+FMT_CHAR = {'B': 'uint8', 'H': 'uint16', 'I': 'uint32', 'Q': 'uint64', 'i': 'int32'}
+
+
+def _struct_types(fmt: str, prims: dict) -> list:
+    if not fmt.startswith('<'):
+        raise Refuse(f'struct format {fmt!r}: not little endian')
+    out = []
+    for ch in fmt[1:]:
+        name = FMT_CHAR.get(ch)
+        if name is None or prims.get(name) != ['int'] + list(INT_FORMATS['<' + ch]):
+            raise Refuse(f'struct format {fmt!r}: character {ch!r} has no primitive of the same wire format')
+        out.append(name)
+    return out
+
+
+def _stmts(fn):
+    return [x for x in fn.body if not (isinstance(x, ast.Expr) and isinstance(x.value, ast.Constant) and isinstance(x.value.value, str))]
+
+
+def _ser_term(e, owner):
+    """`<prim>(self.<f>).serialize[_into](...)` / `array(self.<f>).serialize[_into](..., <Elem>)` -> (field, type)"""
+    if not (isinstance(e, ast.Call) and isinstance(e.func, ast.Attribute) and e.func.attr in ('serialize', 'serialize_into')
+            and isinstance(e.func.value, ast.Call) and isinstance(e.func.value.func, ast.Name) and len(e.func.value.args) == 1
+            and not e.func.value.keywords and not e.keywords):
+        refuse(e, f'{owner}: serialisation term')
+    arg = e.func.value.args[0]
+    if not (isinstance(arg, ast.Attribute) and isinstance(arg.value, ast.Name) and arg.value.id == 'self'):
+        refuse(e, f'{owner}: serialised value must be self.<field>')
+    args = [ast.unparse(a) for a in e.args]
+    if e.func.attr == 'serialize_into':
+        if not args or args[0] != 'buffer':
+            refuse(e, f'{owner}: serialize_into target')
+        args = args[1:]
+    prim = e.func.value.func.id
+    if prim == 'array':
+        if len(args) != 1:
+            refuse(e, f'{owner}: array without element type')
+        return arg.attr, {'array': args[0]}
+    if args:
+        refuse(e, f'{owner}: unexpected arguments')
+    return arg.attr, prim
+
+
+def translate_fast_codec(rec: str, fn, prims: dict, records: dict) -> list:
+    """-> [[field name, json type]] in the order the hand-written method reads / writes them."""
+    owner = f'{rec}.{fn.name}'
+    st = _stmts(fn)
+    seq = []
+    if fn.name == 'deserialize':
+        var_ty = []
+        i = 0
+        # (a) struct based: `a, b = _X.unpack_from(message, pos)`
+        if st and isinstance(st[0], ast.Assign) and isinstance(st[0].value, ast.Call) and ast.unparse(st[0].value.func).endswith('.unpack_from'):
+            sname = ast.unparse(st[0].value.func).split('.')[0]
+            if sname not in STRUCT_CONSTS or [ast.unparse(a) for a in st[0].value.args] != ['message', 'pos']:
+                refuse(st[0], f'{owner}: unpack_from')
+            names = [e.id for e in st[0].targets[0].elts]
+            tys = _struct_types(STRUCT_CONSTS[sname], prims)
+            if len(names) != len(tys):
+                refuse(st[0], f'{owner}: {len(names)} targets for format {STRUCT_CONSTS[sname]}')
+            var_ty = list(zip(names, tys))
+            i = 1
+            end_expr = f'pos + {sname}.size'
+        else:
+            while i < len(st) and isinstance(st[i], ast.Assign) and isinstance(st[i].targets[0], ast.Tuple):
+                a = st[i]
+                tg = [e.id for e in a.targets[0].elts]
+                c = a.value
+                if not (len(tg) == 2 and tg[0] == 'pos' and isinstance(c, ast.Call) and isinstance(c.func, ast.Attribute) and c.func.attr == 'deserialize'
+                        and isinstance(c.func.value, ast.Name) and [ast.unparse(x) for x in c.args[:2]] == ['pos', 'message']):
+                    refuse(a, f'{owner}: field read')
+                prim = c.func.value.id
+                extra = [ast.unparse(x) for x in c.args[2:]] + [ast.unparse(k.value) for k in c.keywords if k.arg == 'element_type']
+                if prim == 'array':
+                    if len(extra) != 1:
+                        refuse(a, f'{owner}: array read without element type')
+                    var_ty.append((tg[1], {'array': extra[0]}))
+                else:
+                    if extra:
+                        refuse(a, f'{owner}: unexpected arguments')
+                    var_ty.append((tg[1], prim))
+                i += 1
+            end_expr = 'pos'
+        rest = st[i:]
+        vt = dict(var_ty)
+        # (b) object construction: cls(<vars in order>)  |  object.__new__ + __setattr__ per field
+        if len(rest) == 1 and isinstance(rest[0], ast.Return) and isinstance(rest[0].value, ast.Tuple) and len(rest[0].value.elts) == 2 \
+                and ast.unparse(rest[0].value.elts[0]) == end_expr and isinstance(rest[0].value.elts[1], ast.Call) \
+                and ast.unparse(rest[0].value.elts[1].func) == 'cls' and not rest[0].value.elts[1].keywords:
+            order = [ast.unparse(a) for a in rest[0].value.elts[1].args]
+            fnames = [f for f, _ in records[rec]]
+            if len(order) != len(fnames) or [v for v, _ in var_ty] != order:
+                refuse(rest[0], f'{owner}: constructor arguments {order}')
+            seq = [[f, vt[v]] for f, v in zip(fnames, order)]
+        else:
+            if not rest or ast.unparse(rest[0]) != 'obj = object.__new__(cls)' or ast.unparse(rest[-1]) != f'return ({end_expr}, obj)':
+                raise Refuse(f'{owner}: object construction not recognised: {[ast.unparse(x) for x in rest]}')
+            setter = 'object.__setattr__'
+            body = rest[1:-1]
+            if body and ast.unparse(body[0]) == 'set_attr = object.__setattr__':
+                setter, body = 'set_attr', body[1:]
+            assigned = {}
+            for x in body:
+                c = x.value if isinstance(x, ast.Expr) else None
+                if not (isinstance(c, ast.Call) and ast.unparse(c.func) == setter and len(c.args) == 3 and ast.unparse(c.args[0]) == 'obj'
+                        and isinstance(c.args[1], ast.Constant) and isinstance(c.args[2], ast.Name) and c.args[2].id in vt):
+                    refuse(x, f'{owner}: attribute assignment')
+                assigned[c.args[2].id] = c.args[1].value
+            if set(assigned) != set(vt):
+                raise Refuse(f'{owner}: not every value read is stored: {assigned}')
+            seq = [[assigned[v], t] for v, t in var_ty]
+    else:
+        if len(st) != 1 and fn.name == 'serialize':
+            raise Refuse(f'{owner}: expected a single return statement')
+        terms = []
+        if fn.name == 'serialize':
+            r = st[0]
+            if not isinstance(r, ast.Return):
+                refuse(r, f'{owner}: return')
+            e = r.value
+
+            def flat(x):
+                if isinstance(x, ast.BinOp) and isinstance(x.op, ast.Add):
+                    return flat(x.left) + flat(x.right)
+                return [x]
+            terms = flat(e)
+        else:
+            for x in st:
+                if not isinstance(x, ast.Expr):
+                    refuse(x, f'{owner}: statement')
+                terms.append(x.value)
+        # struct based: `_X.pack(self.a, self.b)` possibly inside buffer.extend(...)
+        if len(terms) == 1:
+            t = terms[0]
+            if isinstance(t, ast.Call) and ast.unparse(t.func) == 'buffer.extend' and len(t.args) == 1:
+                t = t.args[0]
+            if isinstance(t, ast.Call) and ast.unparse(t.func).endswith('.pack') and ast.unparse(t.func).split('.')[0] in STRUCT_CONSTS:
+                tys = _struct_types(STRUCT_CONSTS[ast.unparse(t.func).split('.')[0]], prims)
+                fs = []
+                for a in t.args:
+                    if not (isinstance(a, ast.Attribute) and isinstance(a.value, ast.Name) and a.value.id == 'self'):
+                        refuse(a, f'{owner}: packed value must be self.<field>')
+                    fs.append(a.attr)
+                if len(fs) != len(tys):
+                    raise Refuse(f'{owner}: {len(fs)} values for {len(tys)} format characters')
+                return [[f, ty] for f, ty in zip(fs, tys)]
+        seq = [list(_ser_term(t, owner)) for t in terms]
+    for f, t in seq:
+        base = t['array'] if isinstance(t, dict) else t
+        if base not in prims and base not in records:
+            raise Refuse(f'{owner}: unknown type {base}')
+    return seq
 
 
 # ----------------------------------------------------------------------------------------
@@ -517,6 +690,14 @@ def emit_prim(lay: dict) -> str:
     for name, fs in lay['records'].items():
         out.append(f'Definition R_{name} : ty := TRec [' + '; '.join(coq_ty_named(t, lay) for _, t in fs) + '].\n')
         out.append(f'Definition RF_{name} : list string := [' + '; '.join(coq_str(n) for n, _ in fs) + '].\n')
+    out.append('\n(* hand-optimised codecs of the record classes, as the field sequence they read / write (translated from the\n'
+               '   method bodies), next to the sequence the metadata-driven codec uses: (label, fast, generic) *)\n')
+    rows = []
+    for rn, meth, seq in FAST_CODECS:
+        fast = '; '.join(f'({coq_str(f)}, {coq_ty_named(t, lay)})' for f, t in seq)
+        gen = '; '.join(f'({coq_str(f)}, {coq_ty_named(t, lay)})' for f, t in lay['records'][rn])
+        rows.append(f' ({coq_str(rn + "." + meth)}, [{fast}], [{gen}])')
+    out.append('Definition fast_codecs : list (string * list (string * ty) * list (string * ty)) := [\n' + ';\n'.join(rows) + '].\n')
     out.append('\nDefinition all_prims : list ty := [' + '; '.join('T_' + n.lstrip('_') for n in lay['primitives']) + '].\n')
     out.append('Definition all_records : list ty := [' + '; '.join('R_' + n for n in lay['records']) + '].\n')
     return ''.join(out)
